@@ -1,9 +1,16 @@
 (* Property C17: a cron trigger fires once per due time and never more than its count.
    Only theorem statements closed by `exact`, each followed by Print Assumptions.
 
-   Reading guide.  `run byname keys nxt (init t0 db0) ops` is the state after ANY list `ops` of database-granular steps
-   (Tick / Read i / Adv i k / Start i / Drop i / Crash i) of ANY number of processors i over ANY set of trigger
-   rows db0, for ANY croniter function nxt with t < nxt k t.  `starts` are the start_workflow calls received by
+   Reading guide.  `run byname drc urm keys nxt (init t0 db0) ops` is the state after ANY list `ops` of steps
+   (Tick / Read i / Sel i k / Wr i / Adv i k / Start i / Drop i / Crash i) of ANY number of processors i over ANY set
+   of trigger rows db0, for ANY croniter function nxt with t < nxt k t.  The steps are finer than database calls:
+   a call of advance_cron_trigger is its SELECT (Sel i k) and, separately, its DELETE / conditional UPDATE statement
+   (Wr i), so other processors act between the two (Adv i k = both at once).
+   `drc` / `urm` say what a write that changed no row reports to the processor; they are instantiated below with
+   Gen.CronCfg.delete_reports_rowcount / update_reports_match, extracted from db/v2/sqlalchemy/api.py on every run, and
+   every theorem is proved from `delete_reports_rowcount = true` and `update_reports_match = true` (by eq_refl: a
+   change of either generated flag breaks every theorem of this file); with either flag false the property FAILS
+   on the model: C17_last_occurrence_twice_when_delete_not_rowcount, C17_occurrence_twice_when_update_not_matched.  `starts` are the start_workflow calls received by
    the engine client; `won` is the history of rows: (k, n) is recorded exactly when row k is moved away from /
    deleted at next_execution_time n (C17_won_is_row_history), i.e. the due occurrences that were consumed;
    `lost` are occurrences whose winner died (Crash) or could not reach the engine (Drop) before the start.
@@ -20,48 +27,48 @@ Open Scope N_scope.
 (* at most one workflow start per (trigger, due time), whatever the interleaving *)
 Theorem C17_once_per_occurrence : forall byname keys nxt, (forall k t, t < nxt k t) ->
   forall t0 db0, covers keys db0 -> (byname = true -> unamb db0) ->
-  forall ops, NoDup (map occ_of (starts (run byname keys nxt (init t0 db0) ops))).
-Proof. exact once_per_occurrence. Qed.
+  forall ops, NoDup (map occ_of (starts (run byname delete_reports_rowcount update_reports_match keys nxt (init t0 db0) ops))).
+Proof. exact (once_per_occurrence _ _ eq_refl eq_refl). Qed.
 Print Assumptions C17_once_per_occurrence.
 
 (* every start is for an occurrence the row has really left ... *)
 Theorem C17_start_only_for_consumed_occurrence : forall byname keys nxt, (forall k t, t < nxt k t) ->
   forall t0 db0, covers keys db0 -> (byname = true -> unamb db0) ->
-  forall ops e, In e (starts (run byname keys nxt (init t0 db0) ops)) ->
-  In (occ_of e) (won (run byname keys nxt (init t0 db0) ops)).
-Proof. exact starts_in_won. Qed.
+  forall ops e, In e (starts (run byname delete_reports_rowcount update_reports_match keys nxt (init t0 db0) ops)) ->
+  In (occ_of e) (won (run byname delete_reports_rowcount update_reports_match keys nxt (init t0 db0) ops)).
+Proof. exact (starts_in_won _ _ eq_refl eq_refl). Qed.
 Print Assumptions C17_start_only_for_consumed_occurrence.
 
 (* ... and every consumed occurrence is started, or about to be (pending at a live processor), or was lost
    to a crash / RPC failure of its winner *)
 Theorem C17_every_occurrence_accounted : forall byname keys nxt, (forall k t, t < nxt k t) ->
   forall t0 db0, covers keys db0 -> (byname = true -> unamb db0) ->
-  forall ops k n, let s := run byname keys nxt (init t0 db0) ops in
+  forall ops k n, let s := run byname delete_reports_rowcount update_reports_match keys nxt (init t0 db0) ops in
   In (k, n) (won s) ->
   In (k, n) (map occ_of (starts s)) \/ In (k, n) (lost s) \/
   exists i sn, pend s i = Some (k, sn) /\ t_next sn = n.
-Proof. exact accounted. Qed.
+Proof. exact (accounted _ _ eq_refl eq_refl). Qed.
 Print Assumptions C17_every_occurrence_accounted.
 
 (* exactly one when no processor dies / fails between advancing the trigger and starting the workflow *)
 Theorem C17_exactly_once_unless_crash : forall byname keys nxt, (forall k t, t < nxt k t) ->
   forall t0 db0, covers keys db0 -> (byname = true -> unamb db0) ->
   forall ops k n, Forall no_loss_op ops ->
-  let s := run byname keys nxt (init t0 db0) ops in
+  let s := run byname delete_reports_rowcount update_reports_match keys nxt (init t0 db0) ops in
   In (k, n) (won s) ->
   In (k, n) (map occ_of (starts s)) \/ exists i sn, pend s i = Some (k, sn) /\ t_next sn = n.
-Proof. exact exactly_once_unless_crash. Qed.
+Proof. exact (exactly_once_unless_crash _ _ eq_refl eq_refl). Qed.
 Print Assumptions C17_exactly_once_unless_crash.
 
 (* `won` is the row history: a step either changes no row, or moves exactly one row away from its value and
    records the due time it left *)
 Theorem C17_won_is_row_history : forall byname keys nxt, (forall k t, t < nxt k t) ->
   forall t0 db0, covers keys db0 -> (byname = true -> unamb db0) ->
-  forall ops o, let s := run byname keys nxt (init t0 db0) ops in let s' := step byname keys nxt s o in
+  forall ops o, let s := run byname delete_reports_rowcount update_reports_match keys nxt (init t0 db0) ops in let s' := step byname delete_reports_rowcount update_reports_match keys nxt s o in
   (won s' = won s /\ forall k, db s' k = db s k) \/
   (exists k d, db s k = Some d /\ won s' = (k, t_next d) :: won s /\ db s' k <> Some d /\
                forall k', k' <> k -> db s' k' = db s k').
-Proof. intros byname keys nxt Hn t0 db0 Hc Hu ops o. exact (won_is_row_history byname keys nxt Hn t0 db0 Hc Hu _ o (reach_inv byname keys nxt Hn t0 db0 Hc Hu ops)). Qed.
+Proof. intros byname keys nxt Hn t0 db0 Hc Hu ops o. exact (won_is_row_history _ _ eq_refl eq_refl byname keys nxt Hn t0 db0 Hc Hu _ o (reach_inv _ _ eq_refl eq_refl byname keys nxt Hn t0 db0 Hc Hu ops)). Qed.
 Print Assumptions C17_won_is_row_history.
 
 (* a trigger created with count c >= 1: at most c starts; the row carries c minus the occurrences consumed and
@@ -69,28 +76,28 @@ Print Assumptions C17_won_is_row_history.
 Theorem C17_count_bound : forall byname keys nxt, (forall k t, t < nxt k t) ->
   forall t0 db0, covers keys db0 -> (byname = true -> unamb db0) ->
   forall ops k d0 c, db0 k = Some d0 -> t_rem d0 = Some c -> (1 <= c)%Z ->
-  let s := run byname keys nxt (init t0 db0) ops in
+  let s := run byname delete_reports_rowcount update_reports_match keys nxt (init t0 db0) ops in
   (Z.of_nat (count_key k (map occ_of (starts s))) <= Z.of_nat (count_key k (won s)))%Z /\
   match db s k with
   | Some d => exists r, t_rem d = Some r /\ (1 <= r)%Z /\ (Z.of_nat (count_key k (won s)) + r = c)%Z
   | None => Z.of_nat (count_key k (won s)) = c
   end.
-Proof. exact count_bound. Qed.
+Proof. exact (count_bound _ _ eq_refl eq_refl). Qed.
 Print Assumptions C17_count_bound.
 
 Theorem C17_count_bound_starts : forall byname keys nxt, (forall k t, t < nxt k t) ->
   forall t0 db0, covers keys db0 -> (byname = true -> unamb db0) ->
   forall ops k d0 c, db0 k = Some d0 -> t_rem d0 = Some c -> (1 <= c)%Z ->
-  (Z.of_nat (count_key k (map occ_of (starts (run byname keys nxt (init t0 db0) ops)))) <= c)%Z.
-Proof. exact count_bound_starts. Qed.
+  (Z.of_nat (count_key k (map occ_of (starts (run byname delete_reports_rowcount update_reports_match keys nxt (init t0 db0) ops)))) <= c)%Z.
+Proof. exact (count_bound_starts _ _ eq_refl eq_refl). Qed.
 Print Assumptions C17_count_bound_starts.
 
 (* a removed trigger never comes back (so it never fires again: every start needs a consumed occurrence) *)
 Theorem C17_removed_stays_removed : forall byname keys nxt, (forall k t, t < nxt k t) ->
   forall t0 db0, covers keys db0 -> (byname = true -> unamb db0) ->
-  forall ops1 ops2 k, db (run byname keys nxt (init t0 db0) ops1) k = None ->
-  db (run byname keys nxt (run byname keys nxt (init t0 db0) ops1) ops2) k = None.
-Proof. intros byname keys nxt Hn t0 db0 Hc Hu ops1 ops2 k. exact (run_stays_removed byname keys nxt Hn t0 db0 Hc Hu ops2 _ k (reach_inv byname keys nxt Hn t0 db0 Hc Hu ops1)). Qed.
+  forall ops1 ops2 k, db (run byname delete_reports_rowcount update_reports_match keys nxt (init t0 db0) ops1) k = None ->
+  db (run byname delete_reports_rowcount update_reports_match keys nxt (run byname delete_reports_rowcount update_reports_match keys nxt (init t0 db0) ops1) ops2) k = None.
+Proof. intros byname keys nxt Hn t0 db0 Hc Hu ops1 ops2 k. exact (run_stays_removed _ _ eq_refl eq_refl byname keys nxt Hn t0 db0 Hc Hu ops2 _ k (reach_inv _ _ eq_refl eq_refl byname keys nxt Hn t0 db0 Hc Hu ops1)). Qed.
 Print Assumptions C17_removed_stays_removed.
 
 (* creation of a first-execution-time-only trigger (no pattern; count absent, 0 or 1; larger counts are refused):
@@ -106,11 +113,11 @@ Print Assumptions C17_first_time_only_created.
 Theorem C17_first_time_only_once : forall byname keys nxt, (forall k t, t < nxt k t) ->
   forall t0 db0, covers keys db0 -> (byname = true -> unamb db0) ->
   forall ops k d0, db0 k = Some d0 -> t_rem d0 = Some 1%Z ->
-  let s := run byname keys nxt (init t0 db0) ops in
+  let s := run byname delete_reports_rowcount update_reports_match keys nxt (init t0 db0) ops in
   (count_key k (map occ_of (starts s)) <= 1)%nat /\
   (forall e, In e (starts s) -> e_key e = k -> e_occ e = t_next d0) /\
   (forall d, db s k = Some d -> t_next d = t_next d0 /\ count_key k (won s) = 0%nat).
-Proof. exact first_only_run. Qed.
+Proof. exact (first_only_run _ _ eq_refl eq_refl). Qed.
 Print Assumptions C17_first_time_only_once.
 
 (* creation-time validation refuses: neither pattern nor first time; invalid pattern; first time less than
@@ -123,43 +130,44 @@ Proof. exact create_rejects. Qed.
 Print Assumptions C17_create_rejects.
 
 (* the next execution time only moves forward along the pattern: a step leaves a row alone or sets
-   next' = nxt (max now next) > max now next, remaining' = dec remaining, nothing else *)
+   next' = nxt (max nw next) > max nw next for a clock value nw <= now (the writer computes the value before its
+   database call; nw = now when the call is not interrupted), remaining' = dec remaining, nothing else *)
 Theorem C17_next_forward : forall byname keys nxt, (forall k t, t < nxt k t) ->
   forall t0 db0, covers keys db0 -> (byname = true -> unamb db0) ->
-  forall ops o k d d', let s := run byname keys nxt (init t0 db0) ops in
-  db s k = Some d -> db (step byname keys nxt s o) k = Some d' ->
-  d' = d \/ (t_next d' = nxt k (N.max (now s) (t_next d)) /\ t_next d < t_next d' /\ now s < t_next d' /\
+  forall ops o k d d', let s := run byname delete_reports_rowcount update_reports_match keys nxt (init t0 db0) ops in
+  db s k = Some d -> db (step byname delete_reports_rowcount update_reports_match keys nxt s o) k = Some d' ->
+  d' = d \/ (exists nw, nw <= now s /\ t_next d' = nxt k (N.max nw (t_next d)) /\ t_next d < t_next d' /\ nw < t_next d' /\
              t_rem d' = dec (t_rem d) /\ same_static d' d).
-Proof. intros byname keys nxt Hn t0 db0 Hc Hu ops o k d d'. exact (step_forward byname keys nxt Hn t0 db0 Hc Hu _ o k d d' (reach_inv byname keys nxt Hn t0 db0 Hc Hu ops)). Qed.
+Proof. intros byname keys nxt Hn t0 db0 Hc Hu ops o k d d'. exact (step_forward _ _ eq_refl eq_refl byname keys nxt Hn t0 db0 Hc Hu _ o k d d' (reach_inv _ _ eq_refl eq_refl byname keys nxt Hn t0 db0 Hc Hu ops)). Qed.
 Print Assumptions C17_next_forward.
 
 Theorem C17_next_monotone : forall byname keys nxt, (forall k t, t < nxt k t) ->
   forall t0 db0, covers keys db0 -> (byname = true -> unamb db0) ->
-  forall ops1 ops2 k d, db (run byname keys nxt (init t0 db0) ops1) k = Some d ->
-  match db (run byname keys nxt (init t0 db0) (ops1 ++ ops2)) k with Some d' => t_next d <= t_next d' | None => True end.
-Proof. exact next_monotone. Qed.
+  forall ops1 ops2 k d, db (run byname delete_reports_rowcount update_reports_match keys nxt (init t0 db0) ops1) k = Some d ->
+  match db (run byname delete_reports_rowcount update_reports_match keys nxt (init t0 db0) (ops1 ++ ops2)) k with Some d' => t_next d <= t_next d' | None => True end.
+Proof. exact (next_monotone _ _ eq_refl eq_refl). Qed.
 Print Assumptions C17_next_monotone.
 
 (* every start carries the payload (workflow, input, params, trust) and the project of the trigger's own row *)
 Theorem C17_context : forall byname keys nxt, (forall k t, t < nxt k t) ->
   forall t0 db0, covers keys db0 -> (byname = true -> unamb db0) ->
-  forall ops e, In e (starts (run byname keys nxt (init t0 db0) ops)) ->
+  forall ops e, In e (starts (run byname delete_reports_rowcount update_reports_match keys nxt (init t0 db0) ops)) ->
   exists d0, db0 (e_key e) = Some d0 /\ e_payload e = t_payload d0 /\ e_proj e = t_proj d0.
-Proof. exact start_context. Qed.
+Proof. exact (start_context _ _ eq_refl eq_refl). Qed.
 Print Assumptions C17_context.
 
 (* nothing is started more than 2 s before its due time *)
 Theorem C17_not_early : forall byname keys nxt, (forall k t, t < nxt k t) ->
   forall t0 db0, covers keys db0 -> (byname = true -> unamb db0) ->
-  forall ops e, let s := run byname keys nxt (init t0 db0) ops in In e (starts s) -> e_occ e < now s + 2.
-Proof. exact not_early. Qed.
+  forall ops e, let s := run byname delete_reports_rowcount update_reports_match keys nxt (init t0 db0) ops in In e (starts s) -> e_occ e < now s + 2.
+Proof. exact (not_early _ _ eq_refl eq_refl). Qed.
 Print Assumptions C17_not_early.
 
 (* what the theorems above say about the code as it is: no hypothesis on names is needed iff it addresses by id *)
 Theorem C17_code_mode : lookup_by_name = false ->
   forall keys nxt, (forall k t, t < nxt k t) -> forall t0 db0, covers keys db0 ->
-  forall ops, NoDup (map occ_of (starts (run lookup_by_name keys nxt (init t0 db0) ops))).
-Proof. intros Hm keys nxt Hn t0 db0 Hc. apply once_per_occurrence; auto. intro H. rewrite Hm in H. discriminate. Qed.
+  forall ops, NoDup (map occ_of (starts (run lookup_by_name delete_reports_rowcount update_reports_match keys nxt (init t0 db0) ops))).
+Proof. intros Hm keys nxt Hn t0 db0 Hc. apply (once_per_occurrence _ _ eq_refl eq_refl); auto. intro H. rewrite Hm in H. discriminate. Qed.
 Print Assumptions C17_code_mode.
 
 (* FINDING (while lookup_by_name = true): with a private trigger and another project's public trigger of the same name the lookup by name in
@@ -167,7 +175,7 @@ Print Assumptions C17_code_mode.
 Theorem C17_once_per_occurrence_refuted_ambiguous_names :
   exists keys nxt t0 db0 ops,
     (forall k t, t < nxt k t) /\ covers keys db0 /\ Forall no_loss_op ops /\
-    ~ NoDup (map occ_of (starts (run true keys nxt (init t0 db0) ops))).
+    ~ NoDup (map occ_of (starts (run true true true keys nxt (init t0 db0) ops))).
 Proof. exact once_per_occurrence_refuted_ambiguous_names. Qed.
 Print Assumptions C17_once_per_occurrence_refuted_ambiguous_names.
 
@@ -175,17 +183,41 @@ Print Assumptions C17_once_per_occurrence_refuted_ambiguous_names.
 Theorem C17_count_bound_refuted_ambiguous_names :
   exists keys nxt t0 db0 ops k d0,
     (forall k t, t < nxt k t) /\ covers keys db0 /\ db0 k = Some d0 /\ t_rem d0 = Some 1%Z /\
-    (2 <= count_key k (map occ_of (starts (run true keys nxt (init t0 db0) ops))))%nat.
+    (2 <= count_key k (map occ_of (starts (run true true true keys nxt (init t0 db0) ops))))%nat.
 Proof. exact count_bound_refuted_ambiguous_names. Qed.
 Print Assumptions C17_count_bound_refuted_ambiguous_names.
 
-(* non-vacuity: a concrete unambiguous two-project database (same name, both private), three processors racing,
+(* What the two generated flags stand for.  If delete_cron_trigger did not report the row count of its DELETE, two
+   processors that both SELECTed a count-1 (or first-execution-time-only) trigger before either deleted it would
+   both start its last occurrence ... *)
+Theorem C17_last_occurrence_twice_when_delete_not_rowcount :
+  exists keys nxt t0 db0 ops k d0,
+    (forall k t, t < nxt k t) /\ covers keys db0 /\ unamb db0 /\ Forall no_loss_op ops /\
+    db0 k = Some d0 /\ t_rem d0 = Some 1%Z /\
+    let s := run false false true keys nxt (init t0 db0) ops in
+    ~ NoDup (map occ_of (starts s)) /\ (2 <= count_key k (map occ_of (starts s)))%nat /\ db s k = None.
+Proof. exact last_occurrence_twice_when_delete_not_rowcount. Qed.
+Print Assumptions C17_last_occurrence_twice_when_delete_not_rowcount.
+
+(* ... and if update_cron_trigger reported 1 when its conditional UPDATE matched no row, an earlier occurrence
+   would be started twice and a count-2 trigger would fire 3 times *)
+Theorem C17_occurrence_twice_when_update_not_matched :
+  exists keys nxt t0 db0 ops k d0,
+    (forall k t, t < nxt k t) /\ covers keys db0 /\ unamb db0 /\ Forall no_loss_op ops /\
+    db0 k = Some d0 /\ t_rem d0 = Some 2%Z /\
+    let s := run false true false keys nxt (init t0 db0) ops in
+    ~ NoDup (map occ_of (starts s)) /\ (3 <= count_key k (map occ_of (starts s)))%nat /\ db s k = None.
+Proof. exact occurrence_twice_when_update_not_matched. Qed.
+Print Assumptions C17_occurrence_twice_when_update_not_matched.
+
+(* non-vacuity: a concrete unambiguous two-project database (same name, both private), three processors racing (two of them
+   inside their database call at the same time),
    a crash between advance and start; the hypotheses hold and the run really starts workflows and removes a row *)
 Example C17_nonvacuous :
   let rows := [(0%nat, mkTrig 0 0 false 1 100020 (Some 2%Z)); (1%nat, mkTrig 0 1 false 2 100020 None)] in
   let nx := fun (_ : nat) (t : N) => (t / 60 + 1) * 60 in
-  let s := run lookup_by_name [0%nat; 1%nat] nx (init 100019 (db_of rows))
-             [Read 0; Read 1; Read 2; Adv 1 0; Adv 0 0; Adv 2 0; Start 1; Adv 0 1; Crash 0; Adv 1 1; Tick 60;
+  let s := run lookup_by_name delete_reports_rowcount update_reports_match [0%nat; 1%nat] nx (init 100019 (db_of rows))
+             [Read 0; Read 1; Read 2; Sel 1 0; Sel 0 0; Wr 1; Wr 0; Adv 2 0; Start 1; Adv 0 1; Crash 0; Adv 1 1; Tick 60;
               Read 2; Adv 2 0; Adv 2 1; Start 2; Adv 2 1; Start 2] in
   covers [0%nat; 1%nat] (db_of rows) /\ unamb (db_of rows) /\
   map occ_of (starts s) = [(1%nat, 100080); (0%nat, 100080); (0%nat, 100020)] /\
